@@ -344,7 +344,7 @@ class StreamModel:
         return None
 
     def run(self, image, sched, chunk_observer=True, depth=None,
-            second_run=False):
+            second_run=False, mid_safety=False):
         """Lazy enumeration: the single path the image follows under
         *sched*.  -> dict of observations (python values)."""
         self.image = image
@@ -441,6 +441,14 @@ class StreamModel:
                     break
                 if chunk_observer:
                     res['chunks'].append(observe(interp, insp, False))
+                if mid_safety:
+                    # a caller asks for the safety verdict between two
+                    # reads (whatever it answers now)
+                    try:
+                        interp.call(interp.get_attr(insp, 'safety_check'),
+                                    [])
+                    except AbsRaise:
+                        pass
             try:
                 interp.call(interp.get_attr(insp, 'finish'), [])
             except AbsRaise as r:
